@@ -110,6 +110,8 @@ impl CovComputer {
                     buffer.push(record);
 
                     if total as u64 >= self.memory_ceil_gb as u64 * (1 << 30) {
+                        #[cfg(feature = "verif_hooks")]
+                        ktio::verif::emit("cov.batch_flush", &[buffer.len() as u64, 0]);
                         let result = buffer
                             .par_iter()
                             .map(|seq| {
@@ -135,7 +137,11 @@ impl CovComputer {
                     }
                 }
 
+                #[cfg(feature = "verif_hooks")]
+                ktio::verif::emit("cov.loop_end", &[buffer.len() as u64, total as u64]);
                 if total > 0 {
+                    #[cfg(feature = "verif_hooks")]
+                    ktio::verif::emit("cov.batch_flush", &[buffer.len() as u64, 1]);
                     // optimise this with pre-sized string
                     let result = buffer
                         .par_iter()
@@ -165,18 +171,27 @@ impl CovComputer {
     fn vectorise_one(&self, seq: &[u8], counts: &HashMap<u64, u32>) -> Vec<f64> {
         let mut vec = vec![0_f64; self.bin_count];
         let mut total = 0_f64;
+        #[cfg(feature = "verif_hooks")]
+        let mut verif_idx = [0_u64; 2];
 
         for (fmer, rmer) in KmerGenerator::new(seq, self.ksize) {
             let min_mer = u64::min(fmer, rmer);
             let count = *counts.get(&min_mer).unwrap_or(&0);
             let kmer_bin = (count as f64 / self.bin_size as f64).floor() as usize;
             let vec_bin = min(kmer_bin, self.bin_count - 1);
+            #[cfg(feature = "verif_hooks")]
+            {
+                verif_idx[0] = verif_idx[0].max(vec_bin as u64 + 1);
+                verif_idx[1] += 1;
+            }
             unsafe {
                 // we already know the size of the vector and
                 *vec.get_unchecked_mut(vec_bin) += 1_f64;
                 total += 1_f64;
             }
         }
+        #[cfg(feature = "verif_hooks")]
+        ktio::verif::emit("cov.idx", &[verif_idx[0], vec.len() as u64, verif_idx[1]]);
         if self.norm {
             vec.iter_mut().for_each(|el| *el /= f64::max(1_f64, total));
         }
